@@ -19,6 +19,8 @@ TAG2FINDING = {
     "chained-cmp-call": "chained-cmp-double-eval",
     "macro-arg-call": "macro-double-eval",
     "list-alias-mutation": "list-alias-mutation",
+    "list-alias-created": "list-alias-shallow-copy",
+    "list-created-in-loop": "list-created-in-loop-leaks",
     "list-append-float": "list-append-float-expr",
     "loop-born-carried": "loop-born-variable-reset",
     "len-after-nested-mutation": "len-folded-stale",
@@ -62,8 +64,12 @@ def syntactic_tags(prog: dict) -> list:
     return tags
 
 
-def known_tags(feat) -> list:
-    return [t for t in feat if TAG2FINDING.get(t)]
+# tags that matter only to some properties (a list created in the loop prints the right values: it only leaks)
+TAG_SCOPE = {"list-created-in-loop": {"C09"}, "list-alias-created": {"C09"}}
+
+
+def known_tags(feat, prop: str | None = None) -> list:
+    return [t for t in feat if TAG2FINDING.get(t) and (t not in TAG_SCOPE or prop in TAG_SCOPE[t])]
 
 
 def retyped(ty: dict) -> list:
@@ -129,7 +135,7 @@ class Strata:
             if not v["wd"]:
                 self.ill += 1
                 continue
-            tags = known_tags(v["feat"]) + syntactic_tags(p)
+            tags = known_tags(v["feat"], self.prop) + syntactic_tags(p)
             if retyped(v["ty"]):
                 tags.append("name-retyped")
             if extra_exclude:
